@@ -14,6 +14,7 @@ import (
 	"testing"
 
 	"github.com/containerd/containerd/v2/pkg/reference"
+	"github.com/containerd/log"
 	"github.com/containerd/stargz-snapshotter/cache"
 	"github.com/containerd/stargz-snapshotter/fs/config"
 	"github.com/containerd/stargz-snapshotter/internal/verifreg"
@@ -77,6 +78,16 @@ func (c *verifMapCache) Get(key string, _ ...cache.Option) (cache.Reader, error)
 	return verifMapReader{bytes.NewReader(d)}, nil
 }
 func (c *verifMapCache) Close() error { return nil }
+func (c *verifMapCache) truncate(key string, n int) bool {
+	c.mu.Lock()
+	defer c.mu.Unlock()
+	d, ok := c.m[key]
+	if !ok || n >= len(d) {
+		return false
+	}
+	c.m[key] = d[:n]
+	return true
+}
 func (c *verifMapCache) drop(key string) {
 	c.mu.Lock()
 	delete(c.m, key)
@@ -143,6 +154,7 @@ func verifStatusName(l verifreg.ReqLog) string {
 // in-memory registry and evaluates byte-exactness and the fetched-size predicate on the
 // implementation's own answers.
 func TestVerifC06B(t *testing.T) {
+	log.SetLevel("error")
 	rnd := verifutil.NewRand(verifutil.Seed() + 1000)
 	out := verifutil.OpenOut()
 	defer out.Close()
@@ -206,7 +218,7 @@ func TestVerifC06B(t *testing.T) {
 		nops := 2 + rnd.Intn(14)
 		shape := ""
 		for i := 0; i < nops; i++ {
-			kind := rnd.Pick(10, 3, 3, 1)
+			kind := rnd.Pick(10, 3, 3, 1, 2)
 			switch kind {
 			case 0, 1: // read / cache
 				var o, n int64
@@ -223,7 +235,7 @@ func TestVerifC06B(t *testing.T) {
 				}
 				// server behaviour for this op
 				var q []verifreg.Mode
-				switch rnd.Pick(8, 3, 3, 2, 2, 1, 1, 1, 1) {
+				switch rnd.Pick(8, 3, 3, 2, 2, 1, 1, 1, 1, 2) {
 				case 0:
 					q = nil
 				case 1:
@@ -242,6 +254,8 @@ func TestVerifC06B(t *testing.T) {
 					q = []verifreg.Mode{verifreg.Short}
 				case 8:
 					q = []verifreg.Mode{verifreg.Forbidden, verifreg.Forbidden}
+				case 9:
+					q = []verifreg.Mode{verifreg.FirstOnly}
 				}
 				sc.mu.Lock()
 				sc.queue = q
@@ -428,6 +442,21 @@ func TestVerifC06B(t *testing.T) {
 				out.Emit(fmt.Sprintf("drop %d %d", ci, e), "ok")
 				out.Count("op-drop")
 				shape += "d"
+			case 4: // a cache entry loses its tail (partial cache content must be treated as a miss)
+				if size == 0 {
+					continue
+				}
+				ci := rnd.Range(0, (size-1)/chunk) * chunk
+				e := ci + chunk - 1
+				if e >= size {
+					e = size - 1
+				}
+				keep := rnd.Range(0, e-ci)
+				if mc.truncate(fr.genID(region{ci, e}), int(keep)) {
+					out.Emit(fmt.Sprintf("trunc %d %d %d", ci, e, keep), "ok")
+					out.Count("op-trunc")
+					shape += "t"
+				}
 			case 3: // connectivity check (not modelled; must not disturb anything)
 				sc.mu.Lock()
 				sc.queue = nil
